@@ -400,18 +400,17 @@ func (v *Vue) callFunc(ctx *VueContext, fn any, args ...any) (any, error) {
 			continue
 		}
 
-		// Try to convert the argument to the expected type
+		// Try to convert the argument to the expected type. The documented conversions
+		// (number <-> string in decimal, string -> bool) come before Go's own: Go converts
+		// an integer to a string by taking it for a code point (65 -> "A").
 		if argVal.Type().AssignableTo(argType) {
 			in[i] = argVal
+		} else if converted, ok := convertValue(argVal, argType); ok {
+			in[i] = converted
 		} else if argVal.Type().ConvertibleTo(argType) {
 			in[i] = argVal.Convert(argType)
 		} else {
-			// Try to handle common conversions
-			converted, ok := convertValue(argVal, argType)
-			if !ok {
-				return nil, fmt.Errorf("cannot convert argument %d from %v to %v", i, argVal.Type(), argType)
-			}
-			in[i] = converted
+			return nil, fmt.Errorf("cannot convert argument %d from %v to %v", i, argVal.Type(), argType)
 		}
 	}
 
